@@ -1,4 +1,5 @@
 ---------------------------- MODULE EmitStartTLS ----------------------------
+(* Emits the jobs of StartTLS.tla: peer script x successive sessions (addresses) sharing one feature value x tees. *)
 EXTENDS StartTLS, Json, SequencesExt
-ASSUME ndJsonSerialize("starttls_scripts.ndjson", SetToSeq(Scripts))
+ASSUME ndJsonSerialize("starttls_jobs.ndjson", SetToSeq(Jobs))
 =============================================================================
